@@ -4,6 +4,7 @@ hypotheses of the preservation theorem — for every program.
 -/
 import AvoVerif.Props.C01Tables
 import AvoVerif.Props.C02Term
+import AvoVerif.Props.C09
 namespace Avo.Pipeline
 open Avo.Reg Avo.MaskSet Avo.Live Avo.LiveBool Avo.Alloc Avo.AllocCheck Avo.Machine
 
@@ -141,5 +142,29 @@ theorem pipeline_preserves (P : LProg) (hwf : WF P) (is : List AInstr) (A : List
     · rw [ho, ← hci]; simp [toCProg, cAt]
     · rw [hl, ← hci]; simp [toCProg, cAt])).1
   exact accepted_preserves _ A sems hpf hv hsem σ σ' h0 k
+
+end Avo.Pipeline
+
+namespace Avo.Pipeline
+open Avo.Reg Avo.Live Avo.Func
+
+/-- The liveness input made of a CFG (C09) and per-instruction use/def lists. -/
+def mkLProg (g : Graph) (ud : List (List R × List R)) : LProg :=
+  ((List.range ud.length).map (fun i => (⟨(ud.getD i ([], [])).1, (ud.getD i ([], [])).2, g.succ.getD i []⟩ : LInstr))).toArray
+
+/-- **C09 ⇒ the hypothesis of C02/C01.** The program handed to liveness after a
+successful `LabelTarget`/`CFG` is well formed: every successor is an
+instruction of the function. Hence `liveness_exact_total`, `liveness_postfix`
+and `pipeline_preserves` apply to every function the CFG pass accepts. -/
+theorem mkLProg_wf (nodes : List Node) (g : Graph) (h : buildCFG nodes = .ok g)
+    (ud : List (List R × List R)) (hlen : ud.length = (instrs nodes).length) : WF (mkLProg g ud) := by
+  intro i hi s hs
+  have hsz : (mkLProg g ud).size = ud.length := by simp [mkLProg]
+  rw [hsz] at hi ⊢
+  have hget : ((mkLProg g ud).getD i default).succ = g.succ.getD i [] := by
+    simp [mkLProg, Array.getD_eq_getD_getElem?, hi]
+  rw [hget] at hs
+  rw [hlen]
+  exact buildCFG_succ_in_range nodes g h i (by rw [← hlen]; exact hi) s hs
 
 end Avo.Pipeline
